@@ -22,6 +22,9 @@ TupleOk(e) ==
      /\ Chk(e.t = t, <<"tuple differs from RFC 6330 5.3.5.4", "Kp", e.kp, "X", e.x, "impl", e.t, "spec", t>>)
      /\ Chk(TupleInRange(pr, e.t), <<"tuple out of range", "Kp", e.kp, "X", e.x, e.t>>)
 
+\* the degree function on its own: for one W, every listed v (at and around each threshold of the degree table)
+DegOk(e) == \A i \in 1..Len(e.vs) : Chk(e.ds[i] = Deg(e.vs[i], e.w), <<"Deg differs from RFC 6330 5.3.5.2", "v", e.vs[i], "W", e.w, "impl", e.ds[i], "spec", Deg(e.vs[i], e.w)>>)
+
 Init == v_pos = 1 /\ v_count = 0
 Step ==
   /\ v_pos <= Len(Rec)
@@ -29,6 +32,7 @@ Step ==
      \/ e.ev \in {"meta", "end"} /\ UNCHANGED v_count
      \/ e.ev = "params" /\ ParamsOk(e) = TRUE /\ v_count' = v_count + 1
      \/ e.ev = "tuple" /\ TupleOk(e) = TRUE /\ v_count' = v_count + 1
+     \/ e.ev = "deg" /\ DegOk(e) = TRUE /\ v_count' = v_count + Len(e.vs)
   /\ v_pos' = v_pos + 1
 Spec == Init /\ [][Step]_vars
 Accepted == LET d == TLCGet("stats").diameter IN
